@@ -381,6 +381,103 @@ fn explore(backend: &'static str, max_retry: i32, depth: usize, keep: bool, shar
     }
 }
 
+/// Process events (start, complete, error) and messages on an acknowledging channel that subscribes
+/// with all four handler kinds: every delivery is recorded in the store before its handler runs,
+/// and an event acknowledged (inside its handler, or after it) is never delivered again.
+fn events_part(backend: &'static str, ack_inside: bool, out: &mut ItemOut) {
+    let scen = format!("events/{backend}/{}", if ack_inside { "ack-inside-handler" } else { "ack-after-handler" });
+    let cfg = Cfg {
+        keep: true,
+        sqlite: if backend == "sqlite" { Some(scratch_path("db")) } else { None },
+        tick_secs: Some(INTERVAL_S),
+        max_retry: Some(3),
+        ..Default::default()
+    };
+    let mut sess = Session::new(&cfg);
+    sess.deploy(WF);
+    // (handler kind, id, retry, stored before the handler ran)
+    let seen: Arc<Mutex<Vec<(&'static str, String, i32, bool)>>> = Arc::new(Mutex::new(vec![]));
+    let chan = sess.engine.channel_with_options(&acts::ChannelOptions {
+        id: "ack-all".into(),
+        ack: true,
+        ..Default::default()
+    });
+    macro_rules! sub {
+        ($m:ident, $kind:expr) => {{
+            let d = seen.clone();
+            let eng = sess.engine.clone();
+            chan.$m(move |e| {
+                let stored = eng.executor().msg().get(&e.id).is_ok();
+                d.lock().unwrap().push(($kind, e.id.clone(), e.retry_times, stored));
+                if ack_inside {
+                    let _ = eng.executor().msg().ack(&e.id);
+                }
+            });
+        }};
+    }
+    sub!(on_message, "message");
+    sub!(on_start, "start");
+    sub!(on_complete, "complete");
+    sub!(on_error, "error");
+    for p in ["p1", "p2"] {
+        let _ = sess.start("m9", &crate::checks::common::vars_of(&json!({"pid": p})));
+    }
+    sess.drain();
+    // p1 completes, p2 fails
+    for (pid, kind, opts) in [("p1", "complete", json!({})), ("p2", "error", json!({"ecode": "e1", "message": "failed"}))] {
+        if let Some(tid) = sess.tid_of_key(pid, "a1") {
+            let _ = sess.act(kind, pid, &tid, &crate::checks::common::vars_of(&opts));
+        }
+        sess.drain();
+    }
+    if !ack_inside {
+        let ids: Vec<String> = seen.lock().unwrap().iter().map(|x| x.1.clone()).collect();
+        for id in ids {
+            let _ = sess.client("ack", move |e| e.executor().msg().ack(&id));
+        }
+        sess.drain();
+    }
+    let first = seen.lock().unwrap().len();
+    for _ in 0..2 {
+        sess.w.advance_ms(INTERVAL_S * 1000 + 1);
+        sess.tick();
+        sess.drain();
+    }
+    let all = seen.lock().unwrap().clone();
+    let mut viols: BTreeMap<String, String> = BTreeMap::new();
+    let kinds: BTreeSet<&str> = all.iter().map(|x| x.0).collect();
+    for k in ["message", "start", "complete", "error"] {
+        if !kinds.contains(k) {
+            viols.insert(format!("events/no-{k}-delivery"), format!("the acknowledging channel never received a {k} delivery (vacuous scenario)"));
+        }
+    }
+    for (kind, id, retry, stored) in &all {
+        if *retry == 0 && !stored {
+            viols.entry(format!("not-stored-before-handler/{kind}")).or_insert(format!("the {kind} delivery {id} reached its handler before it was recorded in the store"));
+        }
+    }
+    for (kind, id, retry, _) in &all[first.min(all.len())..] {
+        viols.entry(format!("redelivered/acked-{}", all.iter().find(|x| x.1 == *id).map(|x| x.0).unwrap_or("unknown"))).or_insert(format!(
+            "the acknowledged delivery {id} was delivered again (to the {kind} handler, retry {retry})"
+        ));
+    }
+    out.executions += 1;
+    out.transitions += all.len() as u64;
+    out.count("event_deliveries", all.len() as i64);
+    out.count("edges", all.len() as i64);
+    for (sig, what) in viols {
+        out.violations.push(Violation {
+            property: "C09".into(),
+            sig: sig.clone(),
+            scenario: scen.clone(),
+            detail: String::new(),
+            what: what.clone(),
+            replay: json!({"property": "C09", "signature": sig, "scenario": scen, "what": what, "model": WF,
+                "operations": "start p1, p2; complete p1; error p2; acknowledge every delivery; advance past the interval and tick, twice", "deliveries": format!("{all:?}")}),
+        });
+    }
+}
+
 fn classify(s: &Ref, op: &Op, obs: &BTreeMap<usize, (u8, i32)>, exp: &BTreeMap<usize, (u8, i32)>) -> String {
     let names = ["created", "acked", "completed", "error"];
     let opn = match op {
@@ -427,6 +524,12 @@ impl Check for C09 {
     fn items(&self, tier: Tier) -> Vec<Value> {
         let mut v = vec![];
         for backend in ["memory", "sqlite"] {
+            for inside in [true, false] {
+                let scn = format!("events/{backend}/{}", if inside { "ack-inside-handler" } else { "ack-after-handler" });
+                v.push(json!({"id": scn, "scenario": scn, "backend": backend, "events_ack_inside": inside}));
+            }
+        }
+        for backend in ["memory", "sqlite"] {
             for max in [1, 2, 3] {
                 let depth = match (tier, backend) {
                     (Tier::Quick, "memory") => 5,
@@ -451,6 +554,10 @@ impl Check for C09 {
     }
     fn run_item(&self, _tier: Tier, item: &Value, out: &mut ItemOut) {
         let backend: &'static str = if item["backend"] == "sqlite" { "sqlite" } else { "memory" };
+        if let Some(inside) = item.get("events_ack_inside").and_then(|x| x.as_bool()) {
+            events_part(backend, inside, out);
+            return;
+        }
         explore(
             backend,
             item["max"].as_i64().unwrap() as i32,
